@@ -458,7 +458,7 @@ func replayNative(repo, verif, replayPath string) (bool, string) {
 		}
 	}
 	if hasPreempt(d.Sched) {
-		if err := instrumentSchedule(repo, tmp, &d, ov); err != nil {
+		if err := instrumentSchedule(repo, verif, tmp, &d, ov); err != nil {
 			return false, "cannot instrument schedule: " + err.Error()
 		}
 	}
